@@ -210,7 +210,7 @@ def build(unit, workdir):
                 g.bodies[fnpath] = (first, last)
                 g.contracted.append(dict(fnpath=fnpath, name=tname, region=(start + 1, last), src=S.path,
                                          src_line=f["line"], notwin=pending_notwin[0] or cfg.get("notwin", False),
-                                         tags=cfg.get("tags", [])))
+                                         tags=cfg.get("tags", []), safety_tags=cfg.get("safety_tags", [])))
                 pending_notwin[0] = False
             else:
                 g.add(ln, origin)
@@ -570,7 +570,9 @@ def run_unit(name, workdir, rlimit=None, seed=None, twins=True):
             label_lines.setdefault(line, []).append((oid, fp))
     for c in g.contracted:
         res["obligations"]["%s/%s#safety" % (name, c["fnpath"])] = dict(
-            tags=[], clause="implicit obligations of the body: arithmetic overflow, bounds, unwrap, unlabelled callee preconditions, termination",
+            # safety_tags: functions whose property quantifies over ALL inputs ("for all timeouts"): a possible panic / overflow in
+            # the body is then a violation of that property, not merely an unproved technical obligation
+            tags=list(c.get("safety_tags", [])), clause="implicit obligations of the body: arithmetic overflow, bounds, unwrap, unlabelled callee preconditions, termination",
             fn=c["fnpath"], status="discharged", diag=[], lines=[], shim=False)
     for fr in g.frame_results:
         oid = "%s/frame#%s" % (name, fr["name"])
@@ -626,7 +628,9 @@ def run_unit(name, workdir, rlimit=None, seed=None, twins=True):
         hit_cands = []
         for sp in e["spans"]:
             # a span covering a whole body ("at the end of the function body") must not pick up the labels inside it
-            last = sp["line_end"] if sp["line_end"] - sp["line"] <= 3 else sp["line"]
+            in_body = any(b0 <= sp["line"] <= b1 for (b0, b1) in g.bodies.values())
+            # ... but a multi-line CLAUSE of a contract header carries its label on its last line
+            last = sp["line_end"] if (sp["line_end"] - sp["line"] <= 3 or not in_body) else sp["line"]
             for ln in range(sp["line"], last + 1):
                 if ln in label_lines:
                     hit_cands.append(label_lines[ln])
